@@ -3,6 +3,9 @@ from __future__ import annotations
 
 import ast
 import asyncio
+import os
+import subprocess
+import tempfile
 import importlib
 import time
 import traceback
@@ -62,7 +65,11 @@ class Verifier:
         self.ex = build_engine(timeout_ms)
         self.timeout_ms = timeout_ms
         self.solver_time = 0.0
-        self.stats = {"paths": 0, "queries": 0}
+        self.stats = {"paths": 0, "queries": 0, "second_backend_queries": 0, "cvc5_unsat": 0, "cvc5_unknown": 0,
+                      "cvc5_sat": 0, "z3old_unsat": 0, "z3old_unknown": 0, "z3old_sat": 0}
+        self.second_backend = os.environ.get("VERIF_SECOND_BACKEND", "") == "1"
+        self.second_backend_limit = int(os.environ.get("VERIF_SECOND_BACKEND_LIMIT", "150"))
+        self.disagreements: List[str] = []
 
     # ------------------------------------------------------------------------------------------------ solver
     def prove(self, pc: List[z3.BoolRef], goal: z3.BoolRef) -> Tuple[str, Any, str]:
@@ -82,6 +89,8 @@ class Verifier:
         dt = time.time() - t0
         self.solver_time += dt
         if r == z3.unsat:
+            if self.second_backend and self.stats["second_backend_queries"] < self.second_backend_limit:
+                self._second_opinion(s)
             return "unsat", None, ""
         if r == z3.sat:
             model = s.model()
@@ -99,11 +108,39 @@ class Verifier:
             return "sat", model, ""
         return "unknown", None, s.reason_unknown()
 
+    def _second_opinion(self, solver: z3.Solver) -> None:
+        """thorough tier: the same query as SMT-LIB2 text to cvc5 1.0.3 and to the Debian z3 4.8.12; an answer `sat`
+        where the API said `unsat` is a disagreement between back ends (reported as a checker problem)"""
+        self.stats["second_backend_queries"] += 1
+        text = "(set-logic ALL)\n" + solver.sexpr() + "\n(check-sat)\n"
+        with tempfile.NamedTemporaryFile("w", suffix=".smt2", delete=False, dir=os.environ.get("VERIF_TMP") or None) as f:
+            f.write(text)
+            name = f.name
+        try:
+            for tag, cmd in (("cvc5", ["/usr/bin/cvc5", "--lang", "smt2", "--strings-exp", "--tlimit=4000", name]),
+                             ("z3old", ["/usr/bin/z3", "-T:4", name])):
+                try:
+                    r = subprocess.run(cmd, capture_output=True, text=True, timeout=12)
+                    out = (r.stdout.strip().splitlines() or ["unknown"])[0]
+                except (subprocess.TimeoutExpired, OSError):
+                    out = "unknown"
+                if out == "unsat":
+                    self.stats[tag + "_unsat"] += 1
+                elif out == "sat":
+                    self.stats[tag + "_sat"] += 1
+                    self.disagreements.append(f"{tag} answers sat where the z3 API answered unsat")
+                else:
+                    self.stats[tag + "_unknown"] += 1
+        finally:
+            os.unlink(name)
+
     # ------------------------------------------------------------------------------------------------ verify
     def verify(self, target: str, only: Optional[List[str]] = None) -> List[Obl]:
         c = REGISTRY[target]
         ex = self.ex
-        fname = target.split(":")[-1]
+        key = target
+        target = c.target
+        fname = key.split(":")[-1]
         obls: Dict[str, Obl] = {}
 
         def ob(name: str) -> Obl:
@@ -130,6 +167,7 @@ class Verifier:
             for ci_idx, params in enumerate(cases):
                 ex.side_obligations = []
                 self._case_posts = c.case_posts.get(ci_idx)
+                self._case_raises = getattr(c.cls, "case_raises", {}).get(ci_idx)
                 st = State()
                 fid = ex.new_oid()
                 st.frames[fid] = Frame(fid, mod, None, f"{target}:<harness>")
@@ -184,6 +222,10 @@ class Verifier:
         if feasible_paths == 0 and all(o.status == "discharged" for o in obls.values()):
             o = ob("reachable")
             o.status, o.detail = "undecided", "no feasible path: vacuous contract (checker problem)"
+        for o in obls.values():
+            if o.status == "discharged" and o.paths == 0 and "/post_" in o.name:
+                # vacuity guard: a postcondition that no normal path ever reached proves nothing
+                o.status, o.detail = "undecided", "vacuous: no normal path reaches this postcondition (checker problem)"
         dt = time.time() - t_start
         for o in obls.values():
             o.seconds = round(dt / max(1, len(obls)), 4)
@@ -219,12 +261,16 @@ class Verifier:
             if self._only is None or "raises-only-declared" in self._only:
                 ob("raises-only-declared").paths += 1
             cond_fn = c.raises[allowed]
+            if cond_fn and getattr(self, "_case_raises", None) is not None and allowed not in self._case_raises:
+                cond_fn = None  # this case only checks that the exception is a declared one
             if cond_fn and (self._only is None or f"raises-{allowed}" in self._only):
                 self.check_clause(c, s, cond_fn, values, None, ob(f"raises-{allowed}"), negate=False,
                                   what=f"raises {res.cls} although the contract's condition for it is false")
             return
         # normal outcome: every `raises X iff cond` clause must have a false cond; every post must hold
         for k, cond_fn in c.raises.items():
+            if getattr(self, "_case_raises", None) is not None and k not in self._case_raises:
+                continue
             if cond_fn and not cond_fn.startswith(("may_", "onlyif_")) and (self._only is None or f"raises-{k}" in self._only):
                 self.check_clause(c, s, cond_fn, values, res, ob(f"raises-{k}"), negate=True,
                                   what=f"returns normally although the contract demands {k}")
